@@ -632,6 +632,18 @@ func (env *Env) evalCall(x *ast.CallExpr) Val {
 			}
 			arr := env.st.get(name, arraySort(SortRef, SortBool))
 			return boolVal(app("select", arr, p.L[0]))
+		case "attr":
+			// attr(x, name): immutable ghost attribute (an int) of the object x (channel, pointer): an uninterpreted
+			// function of the object's identity
+			v := env.eval(x.Args[0])
+			an := x.Args[1].(*ast.Ident).Name
+			fname := qsym("attr!" + an)
+			fc.declareFunOnce(fname, "((_ BitVec 64)) (_ BitVec 64)")
+			ref := v.L[0]
+			if len(v.L) == 3 {
+				ref = v.L[1]
+			}
+			return Val{T: types.Typ[types.Int64], L: []string{app(fname, ref)}}
 		case "haskey":
 			m := env.eval(x.Args[0])
 			mt := m.T.Underlying().(*types.Map)
